@@ -233,4 +233,59 @@ theorem dist_unit_eq_zero_iff (s t : List α) : dist unit s t = 0 ↔ s = t := b
     rw [← hs, ← ht]; exact zero_cost_eq al hw (by omega)
   · rintro rfl; exact dist_self unit s
 
+/-! ### composition of alignments (C13.dist_unit_triangle) -/
+
+/-- compose an alignment of `s` with `t` and an alignment of `t` with `u` into one of `s` with `u` -/
+def compose : Alignment α → Alignment α → Alignment α
+  | [], al2 => al2
+  | (some a, none) :: r1, al2 => (some a, none) :: compose r1 al2
+  | (none, none) :: r1, al2 => compose r1 al2
+  | (x, some b) :: r1, [] => (x, some b) :: r1
+  | (x, some b) :: r1, (none, some c) :: r2 => (none, some c) :: compose ((x, some b) :: r1) r2
+  | (x, some b) :: r1, (none, none) :: r2 => compose ((x, some b) :: r1) r2
+  | (none, some _) :: r1, (some _, none) :: r2 => compose r1 r2
+  | (some a, some _) :: r1, (some _, none) :: r2 => (some a, none) :: compose r1 r2
+  | (x, some _) :: r1, (some _, some c) :: r2 => (x, some c) :: compose r1 r2
+termination_by al1 al2 => al1.length + al2.length
+
+theorem compose_spec (al1 al2 : Alignment α) (hw1 : WellFormed al1) (hw2 : WellFormed al2)
+    (h : tgtOf al1 = srcOf al2) :
+    WellFormed (compose al1 al2) ∧ srcOf (compose al1 al2) = srcOf al1 ∧ tgtOf (compose al1 al2) = tgtOf al2 ∧
+    cost unit (compose al1 al2) ≤ cost unit al1 + cost unit al2 := by
+  fun_induction compose al1 al2 with
+  | case1 al2 =>
+    refine ⟨hw2, ?_, rfl, by simp [cost]⟩
+    simpa [srcOf, tgtOf] using h.symm
+  | case2 a r1 al2 ih =>
+    obtain ⟨i1, i2, i3, i4⟩ := ih (wf_cons.mp hw1).2 hw2 (by simpa [tgtOf] using h)
+    refine ⟨wf_cons.mpr ⟨by simp, i1⟩, by simp [srcOf] at i2 ⊢; exact i2, i3, ?_⟩
+    simp only [cost, List.map_cons, List.sum_cons] at i4 ⊢; omega
+  | case3 r1 al2 ih => exact absurd rfl (wf_cons.mp hw1).1
+  | case4 x b r1 => simp [srcOf, tgtOf] at h
+  | case5 x b r1 c r2 ih =>
+    obtain ⟨i1, i2, i3, i4⟩ := ih hw1 (wf_cons.mp hw2).2 (by simpa [srcOf] using h)
+    refine ⟨wf_cons.mpr ⟨by simp, i1⟩, by simpa [srcOf] using i2, by simp [tgtOf] at i3 ⊢; exact i3, ?_⟩
+    simp only [cost, List.map_cons, List.sum_cons] at i4 ⊢; omega
+  | case6 x b r1 r2 ih => exact absurd rfl (wf_cons.mp hw2).1
+  | case7 b r1 b' r2 ih =>
+    obtain ⟨i1, i2, i3, i4⟩ := ih (wf_cons.mp hw1).2 (wf_cons.mp hw2).2 (by simp [srcOf, tgtOf] at h; exact h.2)
+    refine ⟨i1, by simpa [srcOf] using i2, by simpa [tgtOf] using i3, ?_⟩
+    simp only [cost, List.map_cons, List.sum_cons] at i4 ⊢; omega
+  | case8 a b r1 b' r2 ih =>
+    obtain ⟨i1, i2, i3, i4⟩ := ih (wf_cons.mp hw1).2 (wf_cons.mp hw2).2 (by simp [srcOf, tgtOf] at h; exact h.2)
+    refine ⟨wf_cons.mpr ⟨by simp, i1⟩, by simp [srcOf] at i2 ⊢; exact i2, by simpa [tgtOf] using i3, ?_⟩
+    simp only [cost, List.map_cons, List.sum_cons, stepCost, unit] at i4 ⊢; split <;> omega
+  | case9 x b r1 b' c r2 ih =>
+    simp [srcOf, tgtOf] at h
+    obtain ⟨i1, i2, i3, i4⟩ := ih (wf_cons.mp hw1).2 (wf_cons.mp hw2).2 (by simpa [srcOf, tgtOf] using h.2)
+    obtain ⟨hb, _⟩ := h
+    subst hb
+    refine ⟨wf_cons.mpr ⟨by simp, i1⟩, ?_, by simp [tgtOf] at i3 ⊢; exact i3, ?_⟩
+    · cases x <;> simp [srcOf] at i2 ⊢ <;> exact i2
+    · cases x with
+      | none => simp only [cost, List.map_cons, List.sum_cons, stepCost, unit] at i4 ⊢; split <;> omega
+      | some a =>
+        simp only [cost, List.map_cons, List.sum_cons, stepCost, unit] at i4 ⊢
+        by_cases h1 : a = b <;> by_cases h2 : b = c <;> by_cases h3 : a = c <;> simp_all <;> omega
+
 end Lev
